@@ -6,10 +6,38 @@ import os
 VERIF = os.path.dirname(os.path.dirname(os.path.abspath(__file__)))
 
 # ids whose check is built and validated; everything else is listed under not_applicable
-IMPLEMENTED = ["C13", "C14", "C18"]
+IMPLEMENTED = ["C03", "C04", "C08", "C09", "C10", "C11", "C12", "C13", "C14", "C18"]
 
 V = "testing/synctest fake clock and durable-blocking rules of go1.26.8; the harness (run under -race by the C20 check)"
 CHECKS = {
+    "C03": dict(cat="exploration", ref="5 (C03), 2 (V, R)",
+                technique="offline history checker (conservation/size oracle) over event logs recorded at the API boundary of the real join/unite disciplines, driven by generated producer/consumer scripts on the synctest fake clock and on the real clock",
+                text="Thousands of generated executions of the real v1 join, v2 join and unite (timeouts firing at arbitrary points, slow/retaining consumers, all slice-length classes) are each fully judged after the output closed: concatenation equality, no empty slice, size bounds. Held = no witness among the executions counted in the evidence.",
+                note=V + "; elements are unique integers (re-sent slices are compared positionally)."),
+    "C04": dict(cat="exploration", ref="5 (C04), 2 (V, R)",
+                technique="offline timing-trace checker: receive timestamps of the real limit discipline against the cumulative and sliding-window rate bounds, exact on the synctest fake clock, cumulative bound also on the real clock",
+                text="Generated rates/arrival patterns/consumer speeds; on the fake clock computation takes zero time so receive instant = send instant for a ready consumer and both bounds are decided exactly; on the real clock only the load-robust cumulative bound is decided.",
+                note=V + "; with a slow consumer only the cumulative bound is asserted."),
+    "C08": dict(cat="exploration", ref="5 (C08), 2 (V, R)",
+                technique="race-detector build + ownership monitors: snapshots of s[:cap(s)] at delivery re-checked while consumers retain/poison slices, backing-array disjointness, non-blocking probes of Output() between delivery and release, v1 stop/cancel injected before release",
+                text="Real disciplines run under -race with consumers that keep, re-read and overwrite delivered slices while producers keep pushing and timeouts fire (fake and real clock); any modification of an owned slice, shared backing array, output before release, or race report is a witness.",
+                note=V + "; the Go race detector sees only executed paths; reading s[len:cap] of an owned slice is allowed."),
+    "C09": dict(cat="exploration", ref="5 (C09), 2 (V, R)",
+                technique="offline history checker: slice boundaries against greedy maximality and a lower bound on the delivery time of short non-final slices (write-start / receive stamps on the conservative side)",
+                text="Every generated execution is judged: without timeout all non-final slices must be maximal; with timeout a short non-final slice must not arrive earlier than Timeout after the previous delivery (exact on the fake clock with a ready consumer, lower bound via write-start stamps otherwise, also sound on the real clock).",
+                note=V + "; equal-instant ties between ticks and arrivals are accepted in either order (oracles are inequalities)."),
+    "C10": dict(cat="exploration", ref="5 (C10), 2 (V)",
+                technique="offline timing-trace checker on the synctest fake clock: (receive - write completion of the oldest element) * d <= Timeout * (d+1) for every output slice, consumer always ready",
+                text="Bounded-latency statement decided on virtual time only (no scheduling latency term): single element then silence, trickle just under the timeout, tick-aligned gaps, bursts; inaccuracy 1..100; v1/v2 join and unite. Not decided on the real clock (an upper bound on real latency depends on machine load).",
+                note=V + "."),
+    "C11": dict(cat="exploration", ref="5 (C11), 2 (V, R)",
+                technique="offline history checker: positional containment of every input slice in exactly one output slice of the real unite discipline",
+                text="Generated length sequences over {0,1,<J,=J,>J,>>J} with re-sent slice objects and timeouts firing in between; every execution judged after concatenation equality was established.",
+                note=V + "."),
+    "C12": dict(cat="exploration", ref="5 (C12), 2 (V, R)",
+                technique="offline history + timing checker for the real limit discipline: sequence equality and closure order on both clocks, the two no-extra-throttling forms on the synctest fake clock",
+                text="Element counts around 0, Q-1, Q, Q+1, kQ, kQ+-1, Quantity 1, unbuffered inputs; sequence/closure judged on every run, exact timing forms (no pause below Quantity; up-front elements within ceil(N/Q) intervals + 1%) on the fake clock with a ready consumer.",
+                note=V + "; only the two timing forms the property states are asserted."),
     "C13": dict(cat="exploration", ref="5 (C13), 2 (P)",
                 technique="reference-model monitor: real Rate.Recalculate/Optimize/Flatten executed on generated inputs, each return value judged by a math/big oracle",
                 text="Runtime reference monitor over generated inputs: boundary-directed triples around floor(Interval/Quantity)=minimum, extremes, full-range PRNG and an exhaustive block [-2..40]^3; every call of the real function is judged. Held means: no counterexample among the evaluations listed in the evidence; the statement is universally quantified over three 64-bit values, which sampling cannot exhaust.",
